@@ -112,17 +112,17 @@ var plans = map[string]Plan{
 			{Harness: "hnet", Config: "nosyn", Quick: 3500, Thorough: 250000, QuickSec: 40, ThoroughSec: 1000, MemGB: 8},
 			{Harness: "hnet", Config: "large", Quick: 1300, Thorough: 120000, QuickSec: 50, ThoroughSec: 1000, MemGB: 8},
 		},
-		Rule: "one run = a tape-drawn simulated network: 1..5 TCP connections between 2..4 hosts (tape-chosen IPv4 addresses, ports, ISNs incl. near 2^32 and 2^31), each endpoint a minimal TCP (SYN/SYN-ACK/ACK, MSS option, optional timestamps/SACK-permitted/window-scale, tape-chosen segment cuts, send window, immediate or delayed cumulative ACKs, timeout retransmission with backoff and optionally other boundaries, FIN active/passive/never) sending 0..64 KiB per direction (most runs < 2 KiB); a discrete-event network with its own clock: per-packet delay, loss before the tap, loss after the tap, duplication, hold-back reordering by <= 3 packets of the same direction never across a SYN/FIN, a router fragmenting above a tape-chosen MTU (68..1500, neighbouring fragments sometimes swapped, one fragment sometimes lost), a tap that timestamps and (config omission) omits 1..2 data segments or one of their fragments; the capture is written by independent writers as pcap LE/BE/ns or pcapng LE/BE (1..2 interfaces, options, late IDB, NRB/ISB) over Ethernet (with padding), raw IP, SLL, SLL2 or BSD null, and decoded by the real fq (decode.Decode via the registry; one run in 48 the whole CLI on the simulated OS with a jq query and JSON). Oracle: exactly the captured connections in order of first captured packet, client = SYN sender, ip/port right, each direction's stream equal to the bytes sent (clean) or to the bytes before the first byte missing from the capture (omission), skipped_bytes = 0 when nothing is missing and > 0 when the capture holds data beyond the hole, every fragmented datagram whose fragments are all captured listed in .ipv4_reassembled with its addresses, protocol and payload; generator self-check (tagged HARNESS): its own TCP delivers every stream, fragments reassemble to the datagram sent, checksums verify, bounded liveness after the last fault. reportonly (SYN/FIN swaps, data before SYN, displacement <= 8, pcapng stated section length) only counts mismatches. distinct = FNV of the capture bytes; non-trivial = at least one connection carried data",
+		Rule: "one run = a tape-drawn simulated network: 1..5 TCP connections between 2..4 hosts (tape-chosen IPv4 and IPv6 addresses, ports, ISNs incl. near 2^32 and 2^31; each connection carried over IPv4 or IPv6, all-IPv4 / all-IPv6 / mixed captures drawn per run; IPv6 with tape-chosen class, flow label, TCP checksum over the IPv6 pseudo header and optionally one hop-by-hop or destination options header of 8..24 bytes before TCP, never through the fragmenting router), each endpoint a minimal TCP (SYN/SYN-ACK/ACK, MSS option, optional timestamps/SACK-permitted/window-scale, tape-chosen segment cuts, send window, immediate or delayed cumulative ACKs, timeout retransmission with backoff and optionally other boundaries, FIN active/passive/never) sending 0..64 KiB per direction (most runs < 2 KiB); a discrete-event network with its own clock: per-packet delay, loss before the tap, loss after the tap, duplication, hold-back reordering by <= 3 packets of the same direction never across a SYN/FIN, a router fragmenting above a tape-chosen MTU (68..1500, neighbouring fragments sometimes swapped, one fragment sometimes lost), a tap that timestamps and (config omission) omits 1..2 data segments or one of their fragments; the capture is written by independent writers as pcap LE/BE/ns or pcapng LE/BE (1..2 interfaces, options, late IDB, NRB/ISB) over Ethernet (with padding), raw IP, SLL, SLL2 or BSD null (IPv6 in each of them: 0x86dd, AF 30), or LINKTYPE_IPV4 228 / LINKTYPE_IPV6 229 when every packet of the interface is of that family, and decoded by the real fq (decode.Decode via the registry; one run in 48 the whole CLI on the simulated OS with a jq query and JSON). Oracle: exactly the captured connections in order of first captured packet, client = SYN sender, ip/port right (IPv6 addresses compared with RFC 5952 text written independently from the 16 address bytes), each direction's stream equal to the bytes sent (clean) or to the bytes before the first byte missing from the capture (omission), skipped_bytes = 0 when nothing is missing and > 0 when the capture holds data beyond the hole, every fragmented datagram whose fragments are all captured listed in .ipv4_reassembled with its addresses, protocol and payload; generator self-check (tagged HARNESS): its own TCP delivers every stream, fragments reassemble to the datagram sent, checksums verify, bounded liveness after the last fault. reportonly (SYN/FIN swaps, data before SYN, displacement <= 8, pcapng stated section length) only counts mismatches. distinct = FNV of the capture bytes; non-trivial = at least one connection carried data",
 		Real: []string{"format/pcap (pcap, pcapng)", "format/inet/flowsdecoder", "gopacket reassembly + ip4defrag", "format/inet (ether8023_frame, sll/sll2/loopback, ipv4_packet, tcp_segment)", "pkg/decode", "pkg/interp + jq + JSON output (1 run in 48)"},
 		Stub: []string{"the network, hosts and TCP endpoints (sim/netsim)", "capture writers (sim/netsim)", "simulated OS for the CLI runs"},
 		Assumptions: append([]string{
-			"IPv4 without IP options; MTU >= 68; retransmissions carry identical content; no RST or keep-alives",
+			"IPv4 without IP options; IPv6 without fragment or routing headers (at most one padding-only hop-by-hop or destination options header); BSD loopback AF_INET6 written as 30 only (the value fq's bsd_loopback_frame knows); MTU >= 68; retransmissions carry identical content; no RST or keep-alives",
 			"tap omission is judged from what the capture actually holds: an omitted segment that is later retransmitted is not a hole",
 			"has_start/has_end are not checked; reorderings beyond what the statement names are report-only",
 			"snaplen: the snap length never cuts a link/IP/TCP header and there is no fragmenting router",
 			"when the capture does not begin with the client's SYN the client/server label is not asserted, only that each (address, port) carries its own bytes",
 		}, commonAssumptions...),
-		ExpectProbes: []string{"loss_before_tap", "loss_after_tap", "duplicate", "reorder", "fragment", "frag_reorder", "tap_omission", "seq_wrap", "retransmission", "full_cli_runs", "hole_with_later_data", "reassembled_datagrams", "snaplen_payload_cut", "syn_omission", "first_packet_not_client_syn", "large_segment", "large_segment_behind_gap"},
+		ExpectProbes: []string{"loss_before_tap", "loss_after_tap", "duplicate", "reorder", "fragment", "frag_reorder", "tap_omission", "seq_wrap", "retransmission", "full_cli_runs", "hole_with_later_data", "reassembled_datagrams", "snaplen_payload_cut", "syn_omission", "first_packet_not_client_syn", "large_segment", "large_segment_behind_gap", "connections_ipv6", "capture_mixed_ipv4_ipv6", "capture_linktype_ipv4_228", "capture_linktype_ipv6_229", "ipv6_over_link_null", "ipv6_dir_hop_by_hop_header", "ipv6_dir_destination_options_header", "dir_ipv6"},
 	},
 	"C15": {
 		Stages: []Stage{
@@ -144,6 +144,8 @@ var plans = map[string]Plan{
 		Stages: []Stage{
 			{Harness: "hbits", Config: "benign", Quick: 560, Thorough: 6000, QuickSec: 140, ThoroughSec: 1800, MemGB: 8},
 			{Harness: "hbits", Config: "errors", Quick: 1000, Thorough: 12000, QuickSec: 80, ThoroughSec: 1000, MemGB: 8},
+			// binaries composed by fq itself over the lazily read file: slices, binary arrays, tobytes(n)/tobits(n)
+			{Harness: "halg", Config: "benign", Quick: 300, Thorough: 5000, QuickSec: 80, ThoroughSec: 1200, MemGB: 8},
 		},
 		Rule: "one run = the whole of fq on one corpus sample (<= 24 KiB, the format and -o options its .fqtest command line names) with a tape-chosen bits_format, read-ahead size in {1,7,64,4096,512Ki} and progress precision in {1,16,1024}, a scheduler policy, and a simulated disk giving short reads, zero reads and latency (config errors: also transient/persistent EIO); the program lists for up to 120 or 1500 values path, range, buffer root and the rendering of tobytes and tobits under that bits_format, or writes tobytes of the root / of a byte aligned value raw; oracle (harness side, from the stored bytes): tobytes = bits[start:stop] left padded to a byte, tobits the same bits right padded when rendered as bytes, each of hex/base64/md5/snippet/byte_array/truncate/string recomputed with the Go standard library, raw root = the stored file; under error faults equality or a reported error, never a crash; values inside nested buffers and synthetic values are counted and skipped; distinct = distinct (sample, format, bits_format, schedule) fingerprint; non-trivial = at least one value compared",
 		Real: []string{"the whole of fq through interp.New/Main/Stop", "the real open stack ctxreadseeker -> progressreadseeker -> aheadreadseeker -> IOBitReadSeeker with knobs", "all format decoders the samples need"},
@@ -176,6 +178,9 @@ var plans = map[string]Plan{
 			{Harness: "hio", Config: "errors", Quick: 15000, Thorough: 1500000, QuickSec: 40, ThoroughSec: 600},
 			// system tier: the stack fq's open really builds, read lazily by tobytes/tobits
 			{Harness: "hbits", Config: "benign", Quick: 380, Thorough: 3500, QuickSec: 80, ThoroughSec: 900, MemGB: 8},
+			// sub-ranges, concatenations and zero padded views composed by fq itself (binary arrays, slices) over that stack
+			{Harness: "halg", Config: "benign", Quick: 400, Thorough: 8000, QuickSec: 90, ThoroughSec: 1500, MemGB: 8},
+			{Harness: "halg", Config: "errors", Quick: 400, Thorough: 8000, QuickSec: 60, ThoroughSec: 1000, MemGB: 8},
 		},
 		Rule: "one run = a tape-drawn reader composition (in-memory bit reader, zero reader, file stack IOBitReadSeeker(ahead?(progress?(ctx?(simulated disk)))) bare or clamped by bitiox.Range, section, multi, clone, byte round trip IOBitReadSeeker(IOReadSeeker(x)), limit) and 10..70 operations on it and its clones (ReadBits, ReadBitsAt, SeekBits start/current/end, ReadFull/ReadAtFull, clone, IOReader/IOReadSeeker byte views with 1..512 byte buffers, bitio.Copy into Buffer and IOBitWriter+Flush) while the simulated disk returns short reads, zero reads, latency and (config errors) transient/persistent EIO and the context is cancelled at a tape-chosen step; oracle: a reference bit-string model per node - count in range, no bit beyond the logical end, returned bits equal the model, EOF only at the logical end, seek results equal the model, byte views and writers equal the model zero padded; under error-class faults an operation may fail but never return wrong bits, and no call blocks forever; distinct = distinct (schedule, operation log) fingerprint; non-trivial = at least three operations executed",
 		Real: []string{"pkg/bitio (all readers, adapters, writer)", "internal/bitiox", "internal/aheadreadseeker", "internal/progressreadseeker", "internal/ctxreadseeker (statement-level yields, simulated channel rendezvous)"},
